@@ -8,9 +8,14 @@
    The model must (1) accept the labels, (2) arrive at a state with the same program points, and (3) claim that no
    internal step is enabled there except steps of frozen processes (the real system did not move: settled).
 
-   Soak: operation mixes from many goroutines; the events the driver can see. *)
+   Soak: operation mixes from many goroutines; the events the driver can see.
+
+   CoreForced: a deterministic schedule forced on a real Core (Model/C40_CoreLoop.v) with its real API server: handlers
+   are parked inside the tracker by clients that hold back the last byte of the request body; the triggers are an API
+   edit / a rewrite of the configuration file that needs a new API server, Core.Close(), an invalid configuration file.
+   Observed after each segment: the program point of Core.run, of the api.Close goroutine and of every handler. *)
 From Coq Require Import List ZArith Bool Arith.
-Require Export MTX.Model.C40_Rendezvous.
+Require Export MTX.Model.C40_Rendezvous MTX.Model.C40_CoreLoop.
 Import ListNotations.
 
 Inductive pmo := OPmIdle | OPmHandle | OPmAnswer | OPmWait | OPmBusy | OPmGone.
@@ -35,9 +40,20 @@ Inductive seg := Seg (ls : list label) (frozen : list proc) (o : obs) (watchdog 
 
 Inductive sev := SvStart (c : Z) (stable : bool) | SvRet (c : Z) (terminated : bool) | SvCancel | SvClosed.
 
+(* ---- Core level ---- *)
+Inductive coo := OCoIdle | OCoAnswer | OCoClosing | OCoBusy | OCoGone.
+Inductive aco := OAcNone | OAcShutdown | OAcTracker.
+(* handler: still reading the body / in Core.APIConfig* at the select / at <-res / the client has the response:
+   1 = 200, 2 = rejected by the configuration code, 3 = "terminated", 4 = body not accepted, 5 = a GET *)
+Inductive hdo := OHdBody | OHdSend | OHdWait | OHdRet (code : Z).
+Record kobs := mkKObs { ko_core : coo; ko_closer : aco; ko_handlers : list hdo }.
+Inductive kproc := FHd (h : hid) | FAc | FWt.
+Inductive kseg := KSeg (ls : list klabel) (frozen : list kproc) (o : kobs) (watchdog stuck : bool).
+
 Inductive case :=
 | Forced (segs : list seg)
-| Soak (evs : list sev).
+| Soak (evs : list sev)
+| CoreForced (segs : list kseg).
 
 (* ---- observation of a model state ------------------------------------------------------------------------------- *)
 Definition pm_obs (x : pm_pc) : pmo :=
@@ -159,10 +175,73 @@ Fixpoint early_terminated (stable : list Z) (evs : list sev) : bool :=
   | _ :: r => early_terminated stable r
   end.
 
+(* ---- Core level: observation of a model state, enabledness claim ------------------------------------------------ *)
+Definition co_obs (c : co_pc) : coo :=
+  match c with
+  | CoIdle => OCoIdle | CoAnswer _ _ _ | CoRefuse _ _ => OCoAnswer | CoApiClosing _ => OCoClosing | CoDone => OCoGone
+  | _ => OCoBusy
+  end.
+Definition ac_obs (a : ac_pc) : aco :=
+  match a with AcShutdown => OAcShutdown | AcTracker => OAcTracker | _ => OAcNone end.
+Definition hres_code (r : hres) : Z :=
+  match r with RsOk => 1 | RsRej => 2 | RsRefused | RsCtx => 3 | RsBad => 4 | RsRead => 5 end%Z.
+Definition hd_obs (x : hd_pc) : hdo :=
+  match x with
+  | HdNone => OHdRet 0 (* not a code: never matches *) | HdBody => OHdBody | HdSend => OHdSend | HdWait => OHdWait
+  | HdWrite r | HdDone r => OHdRet (hres_code r)
+  end.
+Definition coo_eqb (a b : coo) : bool :=
+  match a, b with
+  | OCoIdle, OCoIdle | OCoAnswer, OCoAnswer | OCoClosing, OCoClosing | OCoBusy, OCoBusy | OCoGone, OCoGone => true
+  | _, _ => false
+  end.
+Definition aco_eqb (a b : aco) : bool :=
+  match a, b with OAcNone, OAcNone | OAcShutdown, OAcShutdown | OAcTracker, OAcTracker => true | _, _ => false end.
+Definition hdo_eqb (a b : hdo) : bool :=
+  match a, b with
+  | OHdBody, OHdBody | OHdSend, OHdSend | OHdWait, OHdWait => true
+  | OHdRet x, OHdRet y => Z.eqb x y && negb (Z.eqb x 0)
+  | _, _ => false
+  end.
+Definition kobs_matches (s : kstate) (o : kobs) : bool :=
+  coo_eqb (co_obs (co s)) (ko_core o) && aco_eqb (ac_obs (ac s)) (ko_closer o)
+  && list_eqb hdo_eqb (map (fun h => hd_obs (hd s h)) (seq 0 (nh s))) (ko_handlers o).
+
+Definition kenabledb (s : kstate) (l : klabel) : bool := match kstep true s l with Some _ => true | None => false end.
+
+(* one representative per (process, kind of step): the boolean parameters of a label do not influence enabledness *)
+Definition kcandidates (s : kstate) : list klabel :=
+  [QCoAns; QCoConf true true; QCoIntr; QCoCtx; QCoExit; QCoWClosed; QCoCloseApi; QCoRefAns; QCoApiClosed;
+   QCoRest true true; QAcShutdown; QAcDone; QWtTerm]
+  ++ flat_map (fun h => [QHBody h true; QHEsc h; QHRet h; QCoRecv h true true; QCoRefRecv h]) (seq 0 (nh s)).
+
+Definition kproc_eqb (a b : kproc) : bool :=
+  match a, b with FHd h, FHd g => Nat.eqb h g | FAc, FAc | FWt, FWt => true | _, _ => false end.
+
+(* the process that a driver can hold: a handler in its body read (the client holds back the last byte), api.Close in
+   http.Server.Shutdown (returns when the connections are idle, at the latest after 2 s), the watcher's termination *)
+Definition kinvolves (l : klabel) : list kproc :=
+  match l with QHBody h _ => [FHd h] | QAcShutdown => [FAc] | QWtTerm => [FWt] | _ => [] end.
+
+Definition ksettled (s : kstate) (frozen : list kproc) : bool :=
+  forallb (fun l => negb (kenabledb s l) || existsb (fun q => existsb (kproc_eqb q) frozen) (kinvolves l))
+          (kcandidates s).
+
+Fixpoint kcheck_segs (s : kstate) (segs : list kseg) : bool :=
+  match segs with
+  | [] => true
+  | KSeg ls fr o _ _ :: r =>
+      match krun true s ls with
+      | Some s' => kobs_matches s' o && ksettled s' fr && kcheck_segs s' r
+      | None => false
+      end
+  end.
+
 Definition mismatch (c : case) : bool :=
   match c with
   | Forced segs => negb (check_segs init segs)
   | Soak evs => early_terminated [] evs
+  | CoreForced segs => negb (kcheck_segs kinit segs)
   end.
 
 (* ---- the property on the observations alone: every call and the shutdown complete ------------------------------ *)
@@ -174,6 +253,13 @@ Fixpoint last_obs (segs : list seg) : option obs :=
   | [] => None
   | [Seg _ _ o _ _] => Some o
   | _ :: r => last_obs r
+  end.
+
+Fixpoint klast_obs (segs : list kseg) : option kobs :=
+  match segs with
+  | [] => None
+  | [KSeg _ _ o _ _] => Some o
+  | _ :: r => klast_obs r
   end.
 
 Definition started (evs : list sev) : list Z :=
@@ -194,4 +280,14 @@ Definition spec_fail (c : case) : bool :=
   | Soak evs =>
       negb (forallb (returned evs) (started evs))
       || negb (existsb (fun e => match e with SvClosed => true | _ => false end) evs)
+  | CoreForced segs =>
+      (* every request got its response, every Close() returned: nothing the scenario waited for timed out, and at
+         the end (after Core.Close()) Core.run has terminated and every handler has returned *)
+      existsb (fun g => match g with KSeg _ _ _ _ stuck => stuck end) segs
+      || match klast_obs segs with
+         | Some o => negb (forallb (fun x => match x with OHdRet _ => true | _ => false end) (ko_handlers o)
+                           && match ko_core o with OCoGone => true | _ => false end
+                           && match ko_closer o with OAcNone => true | _ => false end)
+         | None => true
+         end
   end.
